@@ -10,7 +10,7 @@ DIGITS = list('0123456789') + ['٣', '²']
 ODD = ['\x00', '\x01', '\x7f', '\ud800', '\udfff', '\U0001f600', '\U00010400', '﻿', '​', '́']
 
 FRAGMENTS = [
-    '--', '-- ', '--+', '# ', '#', '/*', '*/', '/*+', "'", "''", '"', '""', '`', '``', '´', '$$', '$a$', '$_x1$', '$1',
+    '--', '-- ', '--+', '# ', '#', '/*', '*/', '/*+', '/*!', '/*!40101 x */', "'", "''", '"', '""', '`', '``', '´', '$$', '$a$', '$_x1$', '$1',
     ':=', '::', ':a', '?', '%s', '%(n)s', '@a', '@@a', '##a', '#a', '\\c', '[', ']', '[a]', '[1]',
     'CASE', 'IN', 'VALUES', 'USING', 'FROM', 'AS', 'END', 'END IF', 'END  LOOP', 'END\nWHILE', 'NOT NULL', 'NOT\tNULL',
     'ASC', 'DESC NULLS LAST', 'NULLS FIRST', 'UNION ALL', 'UNION\nALL', 'CREATE OR REPLACE', 'create  or\treplace',
